@@ -69,6 +69,10 @@ _LC = C('LeafC', [P('a', 'int'), P('b', 'str', ['str', 'q'])], ['Mid'])
 _LD = C('LeafD', [P('a', 'int'), P('c', 'int', ['int', 0])], ['Mid'])
 _OT = C('Other', [P('a', 'int'), P('d', 'int', ['int', 0])], ['Root'])
 MODELS = {
+    # string-like classes and enums where bool-looking scalars may turn up
+    'SL': {'classes': [_US, _YS, _COL], 'doc_type': ['list', ['union', REF('US'), 'int']]},
+    'SM': {'classes': [_US, _YS, _COL],
+           'doc_type': ['dict', 'str', ['union', REF('YS'), 'bool', ['list', REF('Col')]]]},
     'DP': {'classes': [_RT, _MD, _LC, _LD, _OT], 'doc_type': REF('Root')},
     'EU': {'classes': [_COL, _SHD, _US, _US2, _EH],
            'doc_type': ['union', REF('EH'), REF('Col'), REF('Shade'), ['list', REF('Shade')]]},
@@ -104,7 +108,7 @@ KEYS = {
     'L': ['x', 'a', 'b'], 'DM': ['k', 'j'], 'DU': ['k', 'j'], 'AB': ['a', 'b'],
     'SH': ['center', 'radius', 'width', 'x'], 'UN': ['a', 'b', 'c'],
     'WD': ['n', 'when', 'where', 'zz'], 'BF': ['k'],
-    'EU': ['c', 's', 'o', 't'], 'DP': ['a', 'b', 'c', 'd'], 'DK': ['m', 'y', 'k'], 'PR': ['a', '_id', 'b'], 'DI': ['a', 'b', 'c', 'd'], 'SV': ['line', 'col', 'w'],
+    'SL': ['k'], 'SM': ['k', 'true'], 'EU': ['c', 's', 'o', 't'], 'DP': ['a', 'b', 'c', 'd'], 'DK': ['m', 'y', 'k'], 'PR': ['a', '_id', 'b'], 'DI': ['a', 'b', 'c', 'd'], 'SV': ['line', 'col', 'w'],
 }
 SCALS = ['1', 'x', 'true', '1.5', '~', 'red', '"1"']
 SCALS_BY = {'SV': ['1', '7', 'x', '~'], 'WD': ['1', 'seven', '2001-01-01', '~', 'a/b', '1.5'],
